@@ -250,7 +250,9 @@ class BrngHMAC(Bundle):
         self.name = 'brngHMAC[iv %d, key %d]' % (ivlen, keylen)
     def start(self, L, A):
         st = A.buf(self.keep(L), 0xA5)
-        self.ivbuf = self.persist.buf(D(self.ivlen, 3)) if self.ivlen else self.persist.buf(1)   # header: for iv_len > 64 the caller keeps iv alive
+        # brng.h: for iv_len > 64 the caller keeps iv valid and constant; for iv_len <= 64 the content is saved in the state
+        ar = self.persist if self.ivlen > 64 else A
+        self.ivbuf = ar.buf(D(self.ivlen, 3)) if self.ivlen else ar.buf(1)
         L.call('brngHMACStart', st, A.buf(D(self.keylen, 0)), self.keylen, self.ivbuf, self.ivlen)
         self.full = one(L, 'brngHMACRand', count=self.n, key=D(self.keylen, 0), iv=D(self.ivlen, 3))['buf']
         return st
@@ -556,6 +558,25 @@ def bundles(tier):
     return bs
 
 _bundles = None
+class _StartArena:
+    """arena handed to Bundle.start: the state blob (first allocation of exactly keep octets) persists, everything else is transient"""
+    def __init__(self, L, transient, persist, keep):
+        self.lib, self.t, self.p, self.keep, self.done = L, transient, persist, keep, False
+        self.mine = []
+    def buf(self, n_or_data, fill=None):
+        if isinstance(n_or_data, int) and n_or_data == self.keep and not self.done:
+            self.done = True
+            return self.p.buf(n_or_data, fill)
+        b = self.t.buf(n_or_data, fill); self.mine.append(b)
+        return b
+    def poison(self):
+        """overwrite every transient buffer (the build is not sanitised: a stale pointer must read garbage, not the old content)"""
+        for b in self.mine:
+            if b.addr and b.n:
+                b.set(b'\xDD' * b.n)
+    def words(self, value, nwords):
+        return self.t.words(value, nwords)
+
 def search(idx_tier):
     """BFS over (position, state bytes) of one bundle; returns (states, transitions, violation or None, capped)"""
     idx, tier = idx_tier
@@ -568,7 +589,13 @@ def search(idx_tier):
     b.persist = persist
     try:
         with vf.Arena(L) as A:
-            st0 = b.start(L, persist)             # the start location stays allocated (and poisoned) for the whole search
+            # the start location stays allocated (and poisoned) for the whole search; every OTHER buffer handed to Start (key, iv,
+            # suite, ...) is released as soon as Start returns, unless the header obliges the caller to keep it (the bundle then
+            # allocates it from self.persist itself): a state that keeps a pointer to a caller buffer it should have copied is a
+            # use-after-free at the first Step
+            sa = _StartArena(L, A, persist, b.keep(L))
+            st0 = b.start(L, sa)
+            sa.poison()
             init = (0, 0, -1) if isinstance(b, Aead) else ((0, 0) if isinstance(b, Ocra) else 0)
             if isinstance(b, Aead) and not b.unwrap:
                 init = (0, 0, 0)
